@@ -36,7 +36,7 @@ def gen_inputs(ctx, rng, quick):
     for k in ((4,) if quick else (4, 5)):
         prod = list(itertools.product(S2, repeat=k))
         if quick:
-            prod = prod[ctx.seed % 3::3]
+            prod = rng.sample(prod, len(prod) // 3)
         for t in prod:
             tot = sum(map(len, t))
             for L in {0, tot, rng.randint(0, tot)}:
